@@ -362,6 +362,6 @@ theorem plainVoters_valid (pr : Nat × Nat × Nat × Nat) : ∀ v ∈ plainVoter
   simp only [List.mem_append, List.mem_replicate] at hv
   have h01 : (0 : Rat) ≤ 1 := by norm_num
   rcases hv with ((⟨-, rfl⟩ | ⟨-, rfl⟩) | ⟨-, rfl⟩) | ⟨-, rfl⟩ <;>
-    exact ⟨h01, h01, fun c h => by cases h⟩
+    exact ⟨h01, h01⟩
 
 end Operon.Quorum
